@@ -34,6 +34,7 @@ type PathResult struct {
 	Reached          []string
 	Observed         []string
 	ObservedSymbolic bool
+	Scheduled        bool // the path depends on engine-chosen schedule decisions (map order): no deterministic native replay
 	Violation        *Violation
 	Steps            int64
 	Notes            map[string]int
@@ -132,6 +133,7 @@ func (w *World) RunPath(fn *ssa.Function, s *smt.Solver, pp PendingPath, maxStep
 	res.Reached = p.ReachedList()
 	res.Observed = p.Observed
 	res.ObservedSymbolic = p.ObservedSymbolic
+	res.Scheduled = len(p.Schedule) > 0
 	res.Violation = p.Violation
 	res.Steps = p.Steps
 	res.Notes = p.Notes
